@@ -112,15 +112,27 @@ structure SysEv where
   onTarget : Bool
   deriving Repr, DecidableEq
 
-/-- The word of `atomicWrite`, up to the number of writes and leading `unlink`s of stale temp files
-    (configobject.cpp:467): `unlink* mkstemp chmod write* fsync close rename`, every call but the final
-    `rename` on the temp file. -/
+/-- Are all writes of the temp-file phase covered by a later fsync?  (`write` makes dirty, `fsync` clean.) -/
+def syncedAtEnd (pre : List SysEv) : Bool :=
+  !(pre.foldl (fun dirty e => if e.kind == .write then true else if e.kind == .fsync then false else dirty) false)
+
+/-- The protocol, as loosely as the crash theorem allows (`crash_old_or_new_conforming`): after removing
+    stale temp files (`unlink*`, configobject.cpp:467) a temp file is created; then any calls on the temp
+    file only — `chmod`/`fchmod`, any number of `write`s and `fsync`s, `close` — such that every write is
+    followed by an fsync before the rename; the single `rename` onto the target is the only call that names
+    the target; after it only `fsync`/`close` may follow.  Rejected: rename before the data is synced,
+    any write/open/unlink/chmod on the target itself, a second rename. -/
 def protocolWord (evs : List SysEv) : Bool :=
   let evs := evs.dropWhile (fun e => e.kind == .unlink && !e.onTarget)
   match evs with
-  | ⟨.mkstemp, false⟩ :: ⟨.chmod, false⟩ :: rest =>
-    let rest := rest.dropWhile (fun e => e.kind == .write && !e.onTarget)
-    rest == [⟨.fsync, false⟩, ⟨.close, false⟩, ⟨.rename, true⟩]
+  | ⟨.mkstemp, false⟩ :: rest =>
+    let pre := rest.takeWhile (fun e => !(e.kind == .rename))
+    match rest.dropWhile (fun e => !(e.kind == .rename)) with
+    | ⟨.rename, true⟩ :: after =>
+      pre.all (fun e => !e.onTarget && (e.kind == .chmod || e.kind == .write || e.kind == .fsync || e.kind == .close)) &&
+        syncedAtEnd pre &&
+        after.all (fun e => !e.onTarget && (e.kind == .fsync || e.kind == .close))
+    | _ => false
   | _ => false
 
 /-- Index (0-based) of the `rename` in a logged word, if any. -/
